@@ -41,6 +41,16 @@ CATEGORIES_6 = """  * change 1: a *weakened safeguard* - a guard condition is re
     constant used, an index shifted by one, a flag passed for another flag.
 Do not use `git stash` (the stash is shared between worktrees); to get back to the clean tree use `git checkout -- .`.
 """
+CATEGORIES_8 = """  * change 1: a *plausible optimisation* - a result is cached / memoised / hoisted out of a loop, work is skipped on a fast path, state
+    is shared or reused between objects, tasks, chromosomes or experiments instead of being rebuilt, a copy is replaced by an alias, an
+    eager computation is made lazy (or the reverse), a container type is changed for speed - and the optimisation is valid for ordinary
+    inputs but not for all that the property quantifies over;
+  * change 2: a *small feature or robustness addition* - support for a new case (an extra option value, file form, record kind, an
+    optional field), a new early return / fallback / default, extra logging or statistics, a retry, a compatibility shim - whose new code
+    path or changed shared code breaks the property in some situation while the old behaviour looks unchanged on ordinary runs.
+Both changes ADD or RESTRUCTURE code (roughly 5-30 changed lines); neither is a one-token edit of an existing comparison or constant.
+Do not use `git stash` (the stash is shared between worktrees); to get back to the clean tree use `git checkout -- .`.
+"""
 for pid in CLAIMED:
     wt = "/tmp/seed%s_%s" % (rnd, pid)
     if not os.path.exists(wt):
@@ -71,7 +81,7 @@ ANCHORS (files / mechanisms): {json.dumps(p['anchors']['files'])} ; {json.dumps(
 YOUR TASK: produce TWO independent changes to the project, each of which BREAKS this property while the project still compiles and the
 test suite still gives exactly "9 failed, 386 passed". They model realistic maintenance mistakes, not sabotage: each should read like a
 plausible commit (an optimisation, a modernised idiom, a clean-up, support for a new case) whose author did not notice the consequence.
-""" + (CATEGORIES_6 if int(rnd) >= 6 else CATEGORIES_4) + f"""
+""" + (CATEGORIES_8 if int(rnd) >= 8 else CATEGORIES_6 if int(rnd) >= 6 else CATEGORIES_4) + f"""
 Earlier changes already exist in these functions, so put yours ELSEWHERE (other functions, other mechanisms of the property): {', '.join(touched(pid)) or '(none)'}.
 Each change should be small (1-25 changed lines), and should need something specific to show: a particular input shape, option,
 number of threads/experiments, kill point, or sequence of runs - ordinary toy-data runs should look normal.
